@@ -176,6 +176,21 @@ def name_index():
     return _NAME_INDEX
 
 
+def spell(name, k):
+    """the same accepted name as a user may type it: as stored, capitalised as in the tables (R-3cr), upper case, with blanks"""
+    name = str(name)
+    k = int(k) % 5
+    if k == 0:
+        return name
+    if k == 1:
+        return name[:1].upper() + name[1:].lower()
+    if k == 2:
+        return name.upper()
+    if k == 3:
+        return name[:1].upper() + " " + name[1:].lower()
+    return name[:1].lower() + name[1:-1].lower() + name[-1:].upper() if len(name) > 1 else name
+
+
 def key_number(sgmod, key):
     """the space-group number an accepted name stands for: taken from the table the public lookup returns for it (the
     value stored in the name dictionary - 'Sg14', 14, a class ... - is an implementation detail)"""
